@@ -1,6 +1,8 @@
 pub mod c01;
 pub mod c07;
 pub mod c08;
+pub mod c13;
+pub mod c15;
 pub mod semantic;
 pub mod semprops;
 
@@ -13,6 +15,10 @@ pub fn by_id(id: &str) -> Option<Box<dyn Property>> {
         "C03" => Some(Box::new(semprops::C03)),
         "C04" => Some(Box::new(semprops::C04)),
         "C05" => Some(Box::new(semprops::C05)),
+        "C11" => Some(Box::new(semprops::C11)),
+        "C12" => Some(Box::new(semprops::C12)),
+        "C13" => Some(Box::new(c13::C13)),
+        "C15" => Some(Box::new(c15::C15)),
         "C07" => Some(Box::new(c07::C07)),
         "C08" => Some(Box::new(c08::C08)),
         _ => None,
